@@ -66,6 +66,8 @@ type Obligation struct {
 	findingKs []string
 	xDecls   []string
 	xFacts   []string
+	SkipLo, SkipHi int // facts [SkipLo, SkipHi) are not part of the query (forgotten at a cut point)
+	SkipExtra      []int
 }
 
 type unsupported struct{ msg string }
@@ -111,6 +113,7 @@ type deferRec struct {
 type retRec struct {
 	st   *State
 	vals []Val
+	afterCut bool // the return lies after a cut point
 	// abrupt exit by a panic (see chan.go): recovered is set once a deferred closure's recover() stopped it
 	panicking bool
 	recovered bool
@@ -172,6 +175,17 @@ type FnCtx struct {
 	recStack []*recInfo
 	Pruned   []string // paths ended at an unsupported statement (contracts marked `partial`)
 	TypingUsed []string // typing facts assumed at entry (contract clause `typing`)
+	// cut points (contract clause `cut before Callee#k: A`): after A is proved the path history
+	// is forgotten; obligations created afterwards see the entry facts and the facts after the cut
+	nEntryFacts    int
+	nEntryDecls    int
+	skipLo, skipHi int
+	skipExtra      []int // indices of the assumed `requires` facts (forgotten at a cut as well)
+	reqFacts       []int
+	cutDone        bool
+	labelSuffix    string
+	axiomFacts     []int          // fact indices of the package axioms (dropped from queries that do not mention their symbols)
+	namedFacts     map[string]int // fact index of each lemma of `uses` and each package axiom (for `using` lists)
 }
 
 func (c *FnCtx) frame() *inlineFrame { return c.frames[len(c.frames)-1] }
@@ -270,13 +284,17 @@ func (c *FnCtx) oblige(st *State, kind, label, goal, src string, try bool, n ast
 	if c.instLabel != "" {
 		name += "[" + c.instLabel + "]"
 	}
-	name += "#" + kind + ":" + label
+	name += "#" + kind + ":" + label + c.labelSuffix
 	pos := ""
 	if n != nil && n.Pos().IsValid() {
 		p := c.E.Fset.Position(n.Pos())
 		pos = fmt.Sprintf("%s:%d", shortPath(p.Filename), p.Line)
 	}
 	o := &Obligation{Name: name, Kind: kind, Fn: c.Fn.Key, NDecl: len(c.decls), NFact: len(c.facts), PC: st.pc, Goal: goal, Try: try, Src: src, ctx: c, Pos: pos}
+	o.SkipLo, o.SkipHi = c.skipLo, c.skipHi
+	if c.skipHi > c.skipLo {
+		o.SkipExtra = c.skipExtra
+	}
 	c.Obls = append(c.Obls, o)
 	return o
 }
